@@ -339,3 +339,79 @@ func derefOf(info *types.Info, n ast.Node, x types.Object) token.Pos {
 }
 
 var _ = strings.HasPrefix
+
+// ruleIterNoWrite: while a locally held iterator over store S is open, the function does not write to
+// S (Set/Delete on the same receiver expression). The in-memory store (always used by the versioned
+// fetcher's replay) does not support writing to a range that is being iterated: the call never returns.
+func ruleIterNoWrite(c *eng.Ctx, rule string, pkgs []string) {
+	n := 0
+	for _, fi := range c.P.Funcs() {
+		if fi.Decl.Body == nil || !pkgMatch(eng.ShortPkg(fi.Pkg.PkgPath), pkgs) {
+			continue
+		}
+		info := fi.Pkg.TypesInfo
+		forEachBody(fi, func(body *ast.BlockStmt, label string) {
+			var flow *eng.FlowGraph
+			ord := 0
+			inspectNoLits(body, func(m ast.Node) {
+				as, ok := m.(*ast.AssignStmt)
+				if !ok || len(as.Rhs) != 1 {
+					return
+				}
+				call, ok := as.Rhs[0].(*ast.CallExpr)
+				if !ok {
+					return
+				}
+				tup, ok := info.TypeOf(call).(*types.Tuple)
+				if !ok || tup.Len() != 2 || !isIteratorType(tup.At(0).Type()) {
+					return
+				}
+				se, ok := call.Fun.(*ast.SelectorExpr)
+				if !ok {
+					return
+				}
+				it := eng.ObjOf(info, as.Lhs[0])
+				if it == nil {
+					return
+				}
+				store := eng.ExprStr(se.X)
+				n++
+				ord++
+				if flow == nil {
+					flow = eng.NewFlow(info, body)
+				}
+				acq, found := flow.PointOf(as)
+				if !found {
+					return
+				}
+				var where token.Pos
+				hit := flow.Forward(acq, false, eng.Walk{
+					Visit: func(p eng.Point, nd ast.Node) eng.Action {
+						closed := eng.FindCall(nd, false, func(cc *ast.CallExpr) bool {
+							s, ok := cc.Fun.(*ast.SelectorExpr)
+							return ok && s.Sel.Name == "Close" && eng.ObjOf(info, s.X) == it
+						}) != nil
+						w := eng.FindCall(nd, false, func(cc *ast.CallExpr) bool {
+							s, ok := cc.Fun.(*ast.SelectorExpr)
+							return ok && (s.Sel.Name == "Set" || s.Sel.Name == "Delete") && eng.ExprStr(s.X) == store && strings.HasPrefix(eng.CalleeName(info, cc), "github.com/sourcenetwork/corekv.")
+						})
+						if w != nil && !(closed && w.Pos() > nd.Pos()) {
+							where = w.Pos()
+							return eng.Hit
+						}
+						if closed {
+							return eng.Cut
+						}
+						if _, isRet := nd.(*ast.ReturnStmt); isRet {
+							return eng.Cut
+						}
+						return eng.Continue
+					},
+				})
+				c.Check(!hit, rule, fmt.Sprintf("%s:iterator#%d(%s over %s)", label, ord, it.Name(), store), call.Pos(), "no write to the iterated store while the iterator is open",
+					"the function writes to "+store+" at "+c.P.Rel(where)+" while its iterator over the same store is still open: on the in-memory store (always used for time-travel replays) the write never returns")
+			})
+		})
+	}
+	c.Floor(rule, n, 5)
+}
